@@ -169,9 +169,85 @@ def check_artefact(ctx, a, stats):
     return True
 
 
+# ---- wall descriptions: every starting vertex, both directions, shifted in Z ---------------
+def wall_description_cases(tier):
+    polys = ["W0", "W2", "W6", "W7"]
+    shifts = [0.0, 1.2, -1.3]
+    if tier != "quick":
+        polys += ["W3"]
+        shifts += [0.4]
+    return [(w, d) for w in polys for d in shifts]
+
+
+def wall_description_case(case):
+    """eq.wall / eq.closed_wallarray for every cyclic rotation and both directions of one wall
+    polygon, on the family's lower single null shifted by d in Z (equilibrium built without
+    regions: only the wall handling runs)"""
+    import contextlib
+    import io
+    import warnings
+
+    from hypnotoad.cases import tokamak
+    from vlib import families
+
+    wname, d = case
+    warnings.simplefilter("ignore")
+    c = families.normalise(dict(geom="lsn", wall=wname, affine=[1.0, 0.0, 1.0, d]))
+    inp = families.build_inputs(c)
+    base = [tuple(map(float, p)) for p in inp["wall"]]
+    bad, n = [], 0
+    for rev in (False, True):
+        w0 = base[::-1] if rev else base
+        for k in range(len(w0)):
+            w = w0[k:] + w0[:k]
+            n += 1
+            try:
+                with contextlib.redirect_stdout(io.StringIO()):
+                    eq = tokamak.TokamakEquilibrium(inp["R1D"].copy(), inp["Z1D"].copy(), inp["psi2D"].copy(),
+                                                    inp["psi1D"].copy(), inp["fpol1D"].copy(), wall=list(w),
+                                                    make_regions=False, settings={})
+            except Exception as e:  # noqa: BLE001
+                bad.append(dict(rotation=k, reversed=rev, problem="constructor raised %s: %s" % (type(e).__name__, str(e)[:100])))
+                continue
+            got = [(float(p.R), float(p.Z)) for p in eq.wall]
+            cwa = [tuple(map(float, p)) for p in np.array(eq.closed_wallarray)]
+            area2 = eg.signed_area([(F(x), F(y)) for x, y in got])
+            prob = None
+            if area2 <= 0:
+                prob = "wall kept or made clockwise"
+            elif sorted(got) != sorted(base):
+                prob = "wall vertices differ from the input"
+            else:
+                i0 = got.index(base[0])
+                rotd = got[i0:] + got[:i0]
+                ref_acw = base if eg.signed_area([(F(x), F(y)) for x, y in base]) > 0 else [base[0]] + base[:0:-1]
+                if rotd != ref_acw:
+                    prob = "wall vertices not in the input's cyclic order"
+                elif cwa != got + [got[0]]:
+                    prob = "closed_wallarray is not the wall plus its first point"
+            if prob:
+                bad.append(dict(rotation=k, reversed=rev, problem=prob, wall_given=w[:3], wall_stored=got[:3]))
+    return dict(case=case, n=n, bad=bad)
+
+
+def check_wall_descriptions(ctx, stats):
+    from concurrent.futures import ProcessPoolExecutor
+
+    cases = wall_description_cases(ctx.tier)
+    with ProcessPoolExecutor(min(12, len(cases))) as pool:
+        res = list(pool.map(wall_description_case, cases))
+    for r in res:
+        stats["wall_descriptions"] = stats.get("wall_descriptions", 0) + r["n"]
+        for b in r["bad"][:3]:
+            ctx.violation("wall description | %s" % b["problem"], dict(wall=r["case"][0], z_shift=r["case"][1], **b),
+                          replay=dict(kind="walldesc", case=list(r["case"])))
+
+
 def run(ctx, arts=None):
     if arts is None:
         arts = gu.select(ctx.tier, log=ctx.log)
+        check_wall_descriptions(ctx, ctx.cov.setdefault("_wd", {}))
+        ctx.set("wall_descriptions", ctx.cov.pop("_wd").get("wall_descriptions", 0))
     arts = gu.rotate(arts, ctx.seed)
     stats = dict(walls=0, target_points=0, faces=0, mask_cells=0, mask_cells_crossing=0)
     n = refused = 0
@@ -200,6 +276,10 @@ def run(ctx, arts=None):
 
 def replay(ctx, payload):
     from vlib import corpus
+
+    if payload["replay"].get("kind") == "walldesc":
+        check_wall_descriptions(ctx, {})
+        return
 
     arts = corpus.ensure([payload["replay"]["config"]], log=ctx.log)
     run(ctx, arts)
